@@ -33,9 +33,9 @@ func termKind(u *gen.Universe, t gen.Term) string {
 	switch {
 	case t.Spell == gen.SpPlus:
 		k = "plus"
-	case t.Spell == gen.SpOnly:
+	case t.Spell == gen.SpOnly || t.Spell == gen.SpOnlyPlus:
 		k = "synth_only"
-	case t.Spell == gen.SpLater:
+	case t.Spell == gen.SpLater || t.Spell == gen.SpLaterPlus:
 		k = "synth_later"
 	case strings.HasSuffix(t.ID, "-or-later"):
 		k = "listed_later"
@@ -246,8 +246,8 @@ func genBigCase(c *Ctx, stream string, idx int) *BigCase {
 	if idx%2 == 0 {
 		bc.Mode = "many-terms"
 		k := 65 + r.Intn(96)
-		if c.Thorough() && idx%8 == 0 {
-			k = 200 + r.Intn(1300) // XL: thresholds far beyond 64 / 128 / 256
+		if c.Thorough() && idx%16 == 0 {
+			k = 200 + r.Intn(200) // XL (the library compares every term with every allowed entry at ~40 us each: 400 x 400 is the practical limit)
 		}
 		bc.Terms = distinctTerms(u, r, k, r.Chance(1, 2))
 		// shape: one dominant operator; sometimes small groups of the other operator (expansion stays small)
@@ -300,7 +300,7 @@ func genBigCase(c *Ctx, stream string, idx int) *BigCase {
 		bc.Terms = randomPool(u, r, k)
 		bc.Tree = gen.RandomTree(r, r.Intn(gen.NumShapes), k+r.Intn(4), k)
 		n := 256 + r.Intn(450)
-		if c.Thorough() && idx%8 == 1 {
+		if c.Thorough() && idx%16 == 1 {
 			n = 1000 + r.Intn(4000) // XL
 		}
 		for len(bc.Allowed) < n {
